@@ -61,3 +61,9 @@ more('decl.c', 'declaratortypes', 'error', "parameter has type 'void'",
      T('decl', 'int f_(void, ...);'), T('decl', 'struct s_ { int (*fp_)(void, ...); };'), T('fdecl', 'int f_(void, ...) { return 0; }'))
 more('scan.c', 'escape', 'error', 'invalid escape sequence',
      T('pp', '#define M_ "a\\\x00b"', gcc=W_ENC2), T('pp', "#define M_ '\\\x00'", gcc=W_ENC2))
+
+# round 19: a second default after the association that matched; mixed-case ll after the u suffix; /*/ is not a complete comment
+more('expr.c', 'generic', 'error', 'multiple default expressions in generic association list',
+     T('expr', '_Generic(1L, int: 1, long: 2, default: 3, char *: 4, default: 5)'), T('expr', '_Generic(h_v, int: 1, default: 2, default: 3)'), T('expr', '_Generic(h_v, default: 2, int: 1, default: 3)'))
+more('expr.c', 'inttype', 'error', "invalid integer constant suffix '%s'",
+     T('expr', '10uLl', "'uLl'"), T('expr', '7UlL', "'ulL'"), T('expr', '1LlU', "'LlU'"))
